@@ -1,7 +1,7 @@
 (** C16 — Indexes and memoisation return what the plain computation returns.
     Statements only; proofs in Proofs/IndexProofs.v.  Models of the repaired alpha index and
     memo key (fix commits c8e1e36, 34a4ae3). *)
-From RRE Require Import Base.Sx Base.Float Model.Index Proofs.IndexProofs.
+From RRE Require Import Base.Sx Base.Float Model.Index Proofs.IndexProofs Proofs.IndexAlphaProofs.
 Open Scope Z_scope.
 
 (** Values with the same Debug rendering are interchangeable on either side of ==
@@ -11,6 +11,19 @@ Theorem C16_rendering_determines_equality : forall a a' b b',
   dbg_eqb a a' = true -> dbg_eqb b b' = true -> val_eqb a b = val_eqb a' b'.
 Proof. exact dbg_respects. Qed.
 Print Assumptions C16_rendering_determines_equality.
+
+(** The alpha-memory index returns what the scan returns: for EVERY history of insertions, index creations
+    (on facts already present), index drops and filters, on every field and value - NaN, signed zeros, nested
+    arrays - the answers are those of the index-free scan of everything inserted so far.
+    ([aop_wf]: float bit patterns decode and re-encode to themselves, which every 64-bit pattern does.) *)
+Theorem C16_alpha_filter_is_scan : forall ops, Forall aop_wf ops -> run_alpha alpha_init ops = spec_alpha [] ops.
+Proof. exact run_alpha_from_empty. Qed.
+Print Assumptions C16_alpha_filter_is_scan.
+
+(** equal values (==, IEEE on floats) always share an index key, so no matching fact is outside its bucket *)
+Theorem C16_equal_values_share_a_key : forall a b, wfv a -> wfv b -> val_eqb a b = true -> key_eqb a b = true.
+Proof. exact val_key. Qed.
+Print Assumptions C16_equal_values_share_a_key.
 
 (** A memoised condition evaluation equals direct evaluation for every node and fact set,
     after any sequence of earlier evaluations (alternating look-alike fact sets included). *)
